@@ -558,6 +558,60 @@ func (c c07) ParentPhase(env *kernel.Env) kernel.PhaseResult {
 			}
 		}
 	}
+	// history across programs: program B generated after program A in one
+	// process must give what B gives in a process of its own (template twins
+	// first - same layout, other constants -, then neighbours in the list)
+	type pair struct{ a, b progRef }
+	var pairs []pair
+	byName := map[string]progRef{}
+	for _, ref := range progs {
+		byName[ref.Name] = ref
+	}
+	for _, tw := range [][2]string{{"routes3", "routes4"}, {"routes4", "routes3"}} {
+		a, okA := byName[tw[0]]
+		b, okB := byName[tw[1]]
+		if okA && okB {
+			pairs = append(pairs, pair{a, b})
+		}
+	}
+	for i := 0; i+1 < len(progs) && len(pairs) < 8; i += 3 {
+		pairs = append(pairs, pair{progs[i], progs[i+1]})
+	}
+	afterRuns := 0
+	for _, pr := range pairs {
+		if pr.a.Kind == "repo" || pr.b.Kind == "repo" {
+			continue
+		}
+		dirA, dirB := progDir(env, pr.a), progDir(env, pr.b)
+		if d, ok := wsDir[pr.b.Name]; ok {
+			dirB = d
+		}
+		cmd := exec.Command(fresh, append([]string{dirB}, progFiles(env, pr.b)...)...)
+		cmd.Env = append(perturbedEnv(0, 4, ws, scr), "C07_BEFORE="+dirA+"|"+strings.Join(progFiles(env, pr.a), ","))
+		b, err := cmd.Output()
+		if err != nil {
+			kernel.Harnessf("fresh process for %s after %s failed: %v", pr.b.Name, pr.a.Name, err)
+		}
+		var got map[string]string
+		if jerr := json.Unmarshal(b, &got); jerr != nil {
+			kernel.Harnessf("fresh process for %s after %s: %v", pr.b.Name, pr.a.Name, jerr)
+		}
+		afterRuns++
+		alone := byProg[pr.b.Name][0].out
+		for _, name := range gen.Names(got) {
+			if alone[name] == got[name] {
+				continue
+			}
+			v := kernel.Violation{Property: "C07", Clause: "output_depends_on_what_was_generated_before", Signature: targetOf(name),
+				Detail: fmt.Sprintf("program %s/%s output %s: generated in a process of its own it has sha256 prefix %s, generated in a process that first loaded and generated program %s/%s it has %s", pr.b.Kind, pr.b.Name, name, alone[name], pr.a.Kind, pr.a.Name, got[name])}
+			path := filepath.Join(kernel.ReplayDir(env), fmt.Sprintf("C07-after-%s-%s.json", pr.a.Name, pr.b.Name))
+			jb, _ := json.MarshalIndent(map[string]any{"violation": v, "command": fmt.Sprintf("C07_BEFORE='%s|%s' c07fresh %s %s", dirA, strings.Join(progFiles(env, pr.a), ","), dirB, strings.Join(progFiles(env, pr.b), " "))}, "", " ")
+			os.WriteFile(path, jb, 0o644)
+			res.Violations = append(res.Violations, kernel.Found{V: v, File: path, Case: kernel.Case{Index: 1<<30 + 3}})
+			break
+		}
+	}
+	res.Coverage["fresh_processes_after_another_program"] = afterRuns
 	res.Evals = 0
 	res.Coverage["fresh_processes"] = procs
 	res.Coverage["fresh_process_programs"] = len(progs)
